@@ -86,21 +86,28 @@ def run(ctx, chk):
                'SHM_MAGIC = %s, PROTOCOL.md = %s' % ([hex(w) for w in words], [hex(w) for w in doc_words]))
     else:
         chk.missing('C16.V1', 'SHM_MAGIC constant')
-    # ---- V5 segment_size
-    seg = [b for b in fb.bodies(common.SHM) if b.name == 'segment_size']
-    seg_val = None
-    if seg:
-        chk.saw(seg[0])
-        ps = [p for p in common.mk_engine(fb).run(seg[0]) if p.kind == 'return']
-        vals = {p.value[1] for p in ps if psi.is_int_const(p.value)}
-        seg_val = vals.pop() if len(vals) == 1 and len(ps) == 1 else None
-        chk.ob('C16.V5', 'segment-size:72', seg_val == 72 and seg_val >= full and seg_val % 8 == 0, seg[0].where(0),
-               'segment_size() evaluates to %s (header %d + record %d = %d, rounded to 8)' % (seg_val, H, R, full))
-    else:
-        chk.missing('C16.V5', 'segment_size()')
-    # ---- V4 repair chain (details of wipe in C04.T6; here: agreement of the constants)
+    # ---- V5 segment size: the length the daemon maps on every successful start-up path (whatever helper computes it)
     from . import C04
-    info = C04.wipe_sequence(fb, chk)
+    from .startup_model import StartupModel
+    sm = StartupModel(fb, chk, 'C16.V5')
+    info = C04.wipe_sequence(fb, chk, sm) if sm.ok else None
+    seg_val = None
+    if sm.ok:
+        lens = set()
+        for sp in sm.paths:
+            if not sp.ok:
+                continue
+            for n, ef in sp.maps:
+                got = None
+                for a in ef['args']:
+                    o = C04.lossless_origin(a)
+                    if psi.is_int_const(o) and o[1] > 0 and a[0] != 'c' and got is None:
+                        got = o[1]
+                lens.add(got)
+        seg_val = lens.pop() if len(lens) == 1 else None
+        chk.ob('C16.V5', 'segment-size:72', seg_val == 72 and seg_val >= full and seg_val % 8 == 0, sm.body.where(0),
+               'the daemon maps a segment of %s bytes (header %d + record %d = %d, rounded to 8)' % (seg_val, H, R, full))
+    # ---- V4 repair chain (details of wipe in C04.T6; here: agreement of the constants)
     for info in (info['all'] if info is not None else []):
         img = info['image']
         hf = {name: (off, w) for off, w, name in C04.header_fields(fb)}
@@ -111,5 +118,6 @@ def run(ctx, chk):
                'the re-created file is cut to the documented size via %s' % info['truncates'] if info['truncates'] else
                'wipe never truncates: a longer unusable file keeps its old length (not the documented 72 bytes)')
         chk.ob('C16.V4', 'repair:declared-size-is-segment-size', vals[2] is not None and vals[2] == info['segsize_arg'] == seg_val == info['map_len'], info['where'],
-               'wipe declares size %s; segment_size() = %s; header + record rounded = %s; mapped length = %s' % (vals[2], seg_val, info['segsize_arg'], info['map_len']))
-    C04.check_new(fb, chk, rule_prefix='C16.V4')
+               'wipe declares size %s; mapped segment = %s; header + record rounded = %s; mapped length on this path = %s' % (vals[2], seg_val, info['segsize_arg'], info['map_len']))
+    if sm.ok:
+        C04.check_new(fb, chk, rule_prefix='C16.V4', m=sm)
